@@ -182,6 +182,36 @@ def run(tier, seed):
         a = authsim.Assertion(rc, vr.credential_id, cdj, ad, rc.sign(ad + hashlib.sha256(cdj).digest()))
         A.run_case(impl.AuthPolicy(b"e" * 16, "example.com", "https://example.com", vr.credential_public_key, vr.sign_count, False), a, "record", "accept", f"authenticate-after/rsa-exponent-{e}")
         registered.append((f"none/RS256-e{e}", rc, vr.credential_id + bytes([e % 251]), vr.credential_public_key, vr.sign_count))
+    # RSA credentials whose PRIMES have arithmetic structure (the shape ROCA detectors fingerprint, primes close to one another): registered, then authenticated with
+    for structure in ("roca", "close-primes"):
+        rc = authsim.rsa_cred_structured(structure)
+        for fmt in ("none", "packed-self"):
+            s = regsim.RScn(fmt, "RS256")
+            s.k["cose_bytes"] = rc.cose_bytes
+            if fmt == "packed-self":
+                s.k["signer"] = rc
+            pd, reg = regsim.build(s)
+            reg.cred = rc
+            pol = regrun.policy_of(pd)
+            il, ml = B.run_case(pol, reg, "dict", "accept", f"register/{fmt}/rsa-primes-{structure}", scn=s)
+            if not il.startswith("OK"):
+                continue
+            cdj = authsim.client_data("webauthn.get", b"g" * 16, "https://example.com")
+            ad = authsim.authdata("example.com", 0x05, 9)
+            a = authsim.Assertion(rc, s.cred_id, cdj, ad, rc.sign(ad + hashlib.sha256(cdj).digest()))
+            A.run_case(impl.AuthPolicy(b"g" * 16, "example.com", "https://example.com", rc.cose_bytes, 3, False), a, ("record", "dict")[fmt == "none"], "accept", f"authenticate-after/rsa-primes-{structure}")
+    # Ed25519 signatures whose per-signature nonce is unusual (0: R is the neutral element; 1: R is the base point; L-1): valid signatures of the registered key all the same
+    edc = authsim.Cred("EdDSA", slot=2)
+    s = regsim.RScn("none", "EdDSA"); s.cred_slot = 2
+    pd, reg = regsim.build(s)
+    pol = regrun.policy_of(pd)
+    il, ml = B.run_case(pol, reg, "dict", "accept", "register/none/ed25519-for-chosen-nonces", scn=s)
+    if il.startswith("OK"):
+        for step, r_ in enumerate((0, 1, authsim._L25519 - 1, 8, 2 ** 200)):
+            cdj = authsim.client_data("webauthn.get", b"n" * 16, "https://example.com")
+            ad = authsim.authdata("example.com", 0x05, 10 + step)
+            a = authsim.Assertion(edc, s.cred_id, cdj, ad, authsim.ed25519_sign_with_nonce(edc.sk, ad + hashlib.sha256(cdj).digest(), r_))
+            A.run_case(impl.AuthPolicy(b"n" * 16, "example.com", "https://example.com", edc.cose_bytes, 9 + step, False), a, authrun.FORMS[step % 3], "accept", f"authenticate-after/ed25519-signature-with-nonce-{r_ if r_ < 10 else 'large'}")
     # RSA moduli that are large or not a multiple of 8 bits, PKCS#1 v1.5 and PSS, in every input form (long signatures travel as long base64url members)
     for bits, kinds2 in ((1025, ("RS256", "PS256")), (1033, ("PS256", "PS384")), (3072, ("RS256",)), (4096, ("RS256", "PS384"))) if not quick else ((1025, ("PS256",)), (1033, ("PS256",)), (4096, ("RS256",))):
         for kind2 in kinds2:
